@@ -235,6 +235,22 @@ func (d *devConn) Close() error {
 	return nil
 }
 
+// flushPort is the serial port handed to half of the serial clients: a devConn that also implements the optional
+// Flush. The client may flush after its own exchange; a Flush that arrives while another caller's reply is still
+// outstanding means somebody touched the port without holding the client's lock.
+type flushPort struct{ *devConn }
+
+func (p flushPort) Flush() error {
+	d := p.devConn
+	d.mu.Lock()
+	defer d.mu.Unlock()
+	if len(d.pending) > 0 && d.owner != nil && !d.owner.cancelled.Load() && !d.owner.returned.Load() {
+		d.viol = append(d.viol, fmt.Sprintf("exchange-overlap: the port was flushed while the reply to caller %d.%d was outstanding (%d unread bytes discarded) and that caller was neither cancelled nor back", d.owner.g, d.owner.k, len(d.pending)))
+	}
+	d.pending = nil
+	return nil
+}
+
 type addrT string
 
 func (a addrT) Network() string                      { return "verif" }
@@ -317,7 +333,11 @@ func run(ci any, r *mon.Rec) {
 		_ = connect()
 		cl = nc
 	default:
-		cl = modbus.NewSerialClient(newConn(), modbus.WithSerialReadTimeout(2*time.Second))
+		if c.Seed%2 == 0 || c.Mode == "lifecycle" {
+			cl = modbus.NewSerialClient(flushPort{newConn()}, modbus.WithSerialReadTimeout(2*time.Second))
+		} else {
+			cl = modbus.NewSerialClient(newConn(), modbus.WithSerialReadTimeout(2*time.Second))
+		}
 	}
 	a := mon.Attrs{"client": clientx.KindName(c.Client), "mode": c.Mode}
 	ctxs := fmt.Sprintf("%s client, mode %s, %d goroutines x %d calls, transport delay class %d", clientx.KindName(c.Client), c.Mode, c.G, c.M, c.Delay)
@@ -344,6 +364,22 @@ func run(ci any, r *mon.Rec) {
 			go func(i int) {
 				defer wg.Done()
 				lr := rand.New(rand.NewSource(c.Seed + int64(i)*77))
+				if connect == nil {
+					// a serial client cannot be reopened: let a few exchanges happen first, so that Close arrives while one is in flight
+					need := 1 + lr.Intn(3)
+					for t := 0; t < 20000; t++ {
+						cmu.Lock()
+						d0 := conns[0]
+						cmu.Unlock()
+						d0.mu.Lock()
+						w := d0.writes
+						d0.mu.Unlock()
+						if w >= need {
+							break
+						}
+						time.Sleep(100 * time.Microsecond)
+					}
+				}
 				for {
 					select {
 					case <-stop:
